@@ -142,3 +142,8 @@ pub fn btreemap_add_or_insert<K: Ord + Clone>(m: &mut BTreeMap<K, F64>, k: K, c:
 { let v = m.entry(k).and_modify(|v| v.v += c.v).or_insert(c); *v }
 #[verifier::external_body]
 pub fn vec_to_btreeset(v: Vec<u64>) -> (r: BTreeSet<u64>) ensures r@ =~= v@.to_set() { v.into_iter().collect() }
+// Option<&T>::copied()
+#[verifier::external_body]
+pub fn opt_copied<T: Copy>(o: Option<&T>) -> (r: Option<T>) ensures o is None ==> r is None, o is Some ==> r == Some(*o->Some_0) { o.copied() }
+pub assume_specification<'a, T: Copy>[ Option::<&'a T>::copied ](o: Option<&'a T>) -> (r: Option<T>)
+    ensures o is None ==> r is None, o is Some ==> r == Some(*o->Some_0);
